@@ -8,8 +8,8 @@
     ([slice::sort_by]); [k_cross_ties] is the class of finding C17-K1. *)
 From Coq Require Export List Permutation Sorted ZArith Bool.
 From GV Require Export Par.Rows Par.Merge Par.Morsel Par.Accum Par.Push Par.ExtSort Par.Sched.
-From GV Require Import Par.Proofs Par.ProofsAccum Par.ProofsMorsel Par.ProofsPush Par.ProofsSched Par.ProofsExt
-     Par.ProofsCmp Par.ProofsC17 Par.ProofsDistinct.
+From GV Require Import Par.Proofs Par.ProofsAccum Par.ProofsMorsel Par.ProofsPush Par.ProofsChain Par.ProofsSel Par.ProofsSched Par.ProofsExt
+     Par.ProofsCmp Par.ProofsC17 Par.ProofsDistinct Par.ProofsAgg.
 Export ListNotations.
 
 (** ** 1. k-way merge of sorted runs (merge_sorted_runs, merge_sorted_chunks, ExternalSort::k_way_merge) *)
@@ -156,6 +156,14 @@ Theorem chain2_streaming_ok : forall (R K : Type) (keq : K -> K -> bool) (k1 k2 
 Proof. intros R K keq. exact (chain2_streaming_ok_l keq). Qed.
 Print Assumptions chain2_streaming_ok.
 
+(** chains of any length run by Pipeline::execute (push_through, finalize_all), any chunking: no LIMIT
+    before the last operator (inner sorts, filters, projections, DISTINCTs; any last operator) *)
+Theorem chain_no_inner_limit : forall (R K : Type) (keq : K -> K -> bool) (ks : list (@opk R K)),
+  no_inner_limit ks = true ->
+  forall cs : list (list R), concat (run_chain keq ks cs) = chain_spec keq ks (concat cs).
+Proof. intros R K keq. exact (chain_no_inner_limit_l keq). Qed.
+Print Assumptions chain_no_inner_limit.
+
 (** C17-K5: an inner LIMIT loses its last chunk *)
 Theorem pipeline_chain_refuted : exists (ks : list (@opk nat unit)) (rows : list nat),
     let keq := fun _ _ : unit => true in
@@ -169,6 +177,22 @@ Theorem pipeline_limit0_diverges : forall (R K : Type) (keq : K -> K -> bool) (p
   pipeline_run keq [OFilter p; OLimit 0] (r0 :: rows) = PDiverge.
 Proof. intros R K keq. exact (pipeline_limit0_diverges_l keq). Qed.
 Print Assumptions pipeline_limit0_diverges.
+
+(** input chunks with a selection vector whose selected rows are the prefix 0..n-1 (in particular: all rows):
+    the operators behave as on the flat chunk of those rows, so the theorems above apply *)
+Theorem push_sel_not_k9 : forall (R K : Type) (keq : K -> K -> bool) (k : @opk R K) (s : @opst R K) (phys : list R) (sel : list nat),
+  sel_is_prefix sel = true -> (length sel <= length phys)%nat ->
+  push_sel keq k s phys sel = push keq k s (firstn (length sel) phys).
+Proof. intros R K keq. exact (push_sel_not_k9_l keq). Qed.
+Print Assumptions push_sel_not_k9.
+
+(** C17-K9: rows 0..9 with rows 5..9 selected through FILTER true: nothing comes out *)
+Theorem push_sel_refuted : exists (phys : list nat) (sel : list nat),
+  k_sel_not_prefix [sel] = true /\
+  let k := @OFilter nat unit (fun _ => true) in
+  concat (snd (fst (push_sel (fun _ _ : unit => true) k st0 phys sel))) <> spec (fun _ _ : unit => true) k (sel_rows phys sel).
+Proof. exact push_sel_refuted_l. Qed.
+Print Assumptions push_sel_refuted.
 
 (** ** 5. schedules: any assignment of morsels to any number of workers, any order *)
 
@@ -193,6 +217,26 @@ Theorem sequential_run_spec : forall (R K : Type) (keq : K -> K -> bool) (ks : l
   concat (sequential_run keq ks csize rows ms) = chain_spec keq ks rows.
 Proof. intros R K keq. exact (sequential_run_spec_l keq). Qed.
 Print Assumptions sequential_run_spec.
+
+(** chains without any LIMIT (filters, projections, DISTINCTs, sorts, in any order and number): every worker
+    computes the sequential chain on the rows of the morsels it took, whatever the chunk size *)
+Theorem worker_run_spec : forall (R K : Type) (keq : K -> K -> bool) (ks : list (@opk R K)),
+  forallb (fun k => negb (is_limit k)) ks = true ->
+  forall csize (rows : list R) ms mine, (0 < csize)%nat ->
+  concat (worker_run keq ks csize rows ms mine)
+  = chain_spec keq ks (concat (map (fun i => slice rows (nth i ms dummy_morsel)) mine)).
+Proof. intros R K keq. exact (worker_run_spec_l keq). Qed.
+Print Assumptions worker_run_spec.
+
+(** per-worker DISTINCT + the distinct merge = the sequential DISTINCT (as a set), any schedule *)
+Theorem schedule_distinct : forall (R : Type) (req : R -> R -> bool),
+  (forall a b, req a b = true <-> a = b) ->
+  forall csize (rows : list R) ms sch, (0 < csize)%nat ->
+  concat (map (slice rows) ms) = rows -> valid_schedule (length ms) sch ->
+  Permutation (dedup req (fun r => r) [] (concat (parallel_run req [ODistinct (fun r : R => r)] csize rows ms sch)))
+              (dedup req (fun r => r) [] rows).
+Proof. exact (@schedule_distinct_l). Qed.
+Print Assumptions schedule_distinct.
 
 (** per-worker sort + k-way merge of the workers' runs *)
 Theorem schedule_sort : forall (R K : Type) (keq : K -> K -> bool) (cmp : R -> R -> comparison) (P : R -> Prop),
@@ -279,6 +323,15 @@ Theorem merge_distinct_spec : forall (A : Type) (req : A -> A -> bool),
 Proof. exact (@merge_distinct_spec_l). Qed.
 Print Assumptions merge_distinct_spec.
 
+(** ** 6c. GROUP BY: grouping every hash partition separately (the spilling aggregate) = grouping everything *)
+Theorem group_by_partitioned : forall (K : Type) (keq : K -> K -> bool) (aggs : list aggexpr) (pf : K -> nat),
+  (forall a b, keq a b = true -> pf a = pf b) ->
+  forall n, (forall k, (pf k < n)%nat) -> forall rows : list (K * row * row),
+  Permutation (concat (map (fun p => group_by keq aggs (filter (fun x => Nat.eqb (pf (fst (fst x))) p) rows)) (seq 0 n)))
+              (group_by keq aggs rows).
+Proof. exact (@group_by_partitioned_l). Qed.
+Print Assumptions group_by_partitioned.
+
 (** ** 7. hash partitions and spill files *)
 
 Theorem partition_union : forall (Key V : Type) (hash : Key -> Z) (n : nat) (rows : list (Key * V)),
@@ -336,6 +389,11 @@ Qed.
 Example stateless_chain_exists :
   forallb stateless_op [@OFilter nat unit (fun n => Nat.leb 2 n); OProject (fun n => (n + 1)%nat)] = true
   /\ chain_spec (fun _ _ : unit => true) [@OFilter nat unit (fun n => Nat.leb 2 n); OProject (fun n => (n + 1)%nat)] [1; 2; 3]%nat = [3; 4]%nat.
+Proof. cbn. auto. Qed.
+
+Example chain_without_inner_limit_exists :
+  no_inner_limit [@OSort nat unit Nat.compare; OFilter (fun n => Nat.leb 2 n); OLimit 2] = true
+  /\ concat (run_chain (fun _ _ : unit => true) [@OSort nat unit Nat.compare; OFilter (fun n => Nat.leb 2 n); OLimit 2] [[5; 1]; []; [3; 2]]%nat) = [2; 3]%nat.
 Proof. cbn. auto. Qed.
 
 Example morsels_exist : exists ms, generate_morsels 2049 1024 0 = Some ms /\ length ms = 3%nat.
